@@ -11,10 +11,15 @@
 //     for tokens whose decision the property text pins down;
 //   - the robustness oracle for tokens containing a construct the property is silent about
 //     (Decision.Silent: non-canonical base64 trailing bits, duplicate JSON members, lone
-//     surrogates, numbers beyond 2^53 or with exponents, fractional NumericDates, deep nesting,
-//     ExpectIssuedInThePast without iat): no panic, and IF Tink accepts then the signature is
-//     genuine under the reference and JSONPayload parsed by encoding/json equals the signed
-//     payload parsed by encoding/json.
+//     surrogates, numbers beyond the float64 range, deep nesting; and, when every stated rule
+//     holds, a fractional NumericDate whose floor and ceiling lie on different sides of a bound, a
+//     byte order mark in front of the JSON, a non-string typ under IgnoreTyp): no panic, and IF Tink
+//     accepts then the signature is genuine under the reference and JSONPayload parsed by
+//     encoding/json equals the signed payload parsed by encoding/json.
+//
+// Numbers in exponent form, with more than 15 digits, beyond 2^53 or "-0" do not weaken the
+// decision: in a custom claim only the comparison of that claim's returned value is loosened
+// (Decision.OddClaims), in a time claim the claim's interval is widened by a second.
 package c09
 
 import (
@@ -25,6 +30,7 @@ import (
 	"encoding/hex"
 	"encoding/json"
 	"fmt"
+	"math"
 	"math/big"
 	"sort"
 	"strings"
@@ -386,19 +392,24 @@ type entry struct {
 }
 
 // buildHandles builds the private (or symmetric) keyset handle and, for signature keysets, the
-// public one, in the given order. It returns nil handles when a random key ID collides.
+// public one, in the given order. It returns nil handles when a key's ID requirement is an ID the
+// keyset already uses (an earlier ID requirement, or the random ID the manager gave to an earlier key
+// without one): that is known from the IDs handed out so far, before AddKey is asked.
 func buildHandles(rt *rapid.T, entries []entry) (priv, pub *keyset.Handle) {
 	m := keyset.NewManager()
 	ids := make([]uint32, len(entries))
+	used := map[uint32]bool{}
 	for i, e := range entries {
+		if req, has := e.k.priv.IDRequirement(); has && used[req] {
+			evid.Add("keyset_id_requirement_already_in_use", 1)
+			return nil, nil
+		}
 		id, err := m.AddKey(e.k.priv)
 		if err != nil {
-			if strings.Contains(err.Error(), "already has ID") {
-				return nil, nil
-			}
-			rt.Fatalf("AddKey(%v): %v", e.k, err)
+			rt.Fatalf("AddKey(%v) to a keyset with the IDs %v: %v", e.k, ids[:i], err)
 		}
 		ids[i] = id
+		used[id] = true
 	}
 	for i, e := range entries {
 		if e.primary {
@@ -531,7 +542,9 @@ func drawValue(rt *rapid.T, label string, depth int) any { return drawValueT(rt,
 // drawTameValue is drawValue restricted to numbers every JSON parser reads alike (at most 15
 // significant digits, no exponent when written): used for hand-written payloads whose decision
 // must stay binding.
-func drawTameValue(rt *rapid.T, label string, depth int) any { return drawValueT(rt, label, depth, true) }
+func drawTameValue(rt *rapid.T, label string, depth int) any {
+	return drawValueT(rt, label, depth, true)
+}
 
 func drawValueT(rt *rapid.T, label string, depth int, tame bool) any {
 	k := rapid.IntRange(0, 9).Draw(rt, label+"_vkind")
@@ -554,7 +567,7 @@ func drawValueT(rt *rapid.T, label string, depth int, tame bool) any {
 	case 1:
 		return rapid.Bool().Draw(rt, label+"_bool")
 	case 2:
-		return float64(rapid.Int64Range(-(1 << 53), 1<<53).Draw(rt, label+"_int"))
+		return float64(rapid.Int64Range(-(1<<53), 1<<53).Draw(rt, label+"_int"))
 	case 3:
 		return rapid.SampledFrom([]float64{0, 1, -1, 0.5, -0.25, 1e-7, 123456.789, 1 << 53, -(1 << 53), 1e21, 1e300, 5e-324, 1.7976931348623157e308, 3.141592653589793, 253402300799, 1e15 + 0.5}).Draw(rt, label+"_float_special")
 	case 4:
@@ -772,6 +785,57 @@ func isRegistered(name string) bool { return registered[name] }
 
 // checkVerified compares EVERY accessor of a VerifiedJWT with the expected typ header and claims.
 func checkVerified(rt *rapid.T, ctx string, v *jwt.VerifiedJWT, typ *string, claims map[string]any) {
+	checkVerifiedOdd(rt, ctx, v, typ, claims, nil)
+}
+
+// looseNumber: two readings of one JSON number text by two parsers (the same float64, or neighbours).
+func looseNumber(a, b float64) bool {
+	if a == b {
+		return true
+	}
+	m := math.Max(math.Abs(a), math.Abs(b))
+	return m < 1e-300 || math.Abs(a-b) <= m/(1<<50)
+}
+
+// looseEqual is jsonEqual with looseNumber for numbers.
+func looseEqual(a, b any) bool {
+	switch x := a.(type) {
+	case float64:
+		y, ok := b.(float64)
+		return ok && looseNumber(x, y)
+	case []any:
+		y, ok := b.([]any)
+		if !ok || len(x) != len(y) {
+			return false
+		}
+		for i := range x {
+			if !looseEqual(x[i], y[i]) {
+				return false
+			}
+		}
+		return true
+	case map[string]any:
+		y, ok := b.(map[string]any)
+		if !ok || len(x) != len(y) {
+			return false
+		}
+		for k, v := range x {
+			w, has := y[k]
+			if !has || !looseEqual(v, w) {
+				return false
+			}
+		}
+		return true
+	}
+	return jsonEqual(a, b)
+}
+
+// checkVerifiedOdd is checkVerified for a payload in which the members named in odd hold a number
+// that two JSON parsers may read differently (jwtref.Decision.OddClaims): kind, presence and
+// structure of such a claim are compared as always, its numbers only up to neighbouring float64
+// values. A time claim with a fraction of a second may come back rounded either way (the property
+// does not say how a NumericDate becomes a time.Time); the JSON payload has to carry the exact value.
+func checkVerifiedOdd(rt *rapid.T, ctx string, v *jwt.VerifiedJWT, typ *string, claims map[string]any, odd map[string]bool) {
 	fail := func(format string, a ...any) {
 		rt.Fatalf("%s\nVerifiedJWT differs from the signed token: %s", ctx, fmt.Sprintf(format, a...))
 	}
@@ -844,9 +908,16 @@ func checkVerified(rt *rapid.T, ctx string, v *jwt.VerifiedJWT, typ *string, cla
 		}
 		got, err := c.get()
 		if present {
-			w := time.Unix(int64(want.(float64)), 0)
-			if err != nil || !got.Equal(w) {
-				fail("%s=%v,%v want %v", c.name, got, err, w)
+			f := want.(float64)
+			lo, hi := int64(math.Floor(f)), int64(math.Ceil(f))
+			if odd[c.name] {
+				lo, hi = lo-1, hi+1
+			}
+			if lo != hi {
+				evid.Add("time_claims_compared_up_to_rounding", 1)
+			}
+			if err != nil || got.Before(time.Unix(lo, 0)) || got.After(time.Unix(hi, 0)) {
+				fail("%s=%v,%v want %v (seconds %d..%d)", c.name, got, err, f, lo, hi)
 			}
 		} else if err == nil {
 			fail("%s accessor succeeds (%v) although the claim is absent", c.name, got)
@@ -872,7 +943,7 @@ func checkVerified(rt *rapid.T, ctx string, v *jwt.VerifiedJWT, typ *string, cla
 				fail("BooleanClaim(%q)=%v,%v want %v", name, got, err, w)
 			}
 		case float64:
-			if got, err := v.NumberClaim(name); err != nil || got != w {
+			if got, err := v.NumberClaim(name); err != nil || (got != w && !(odd[name] && looseNumber(got, w))) {
 				fail("NumberClaim(%q)=%v,%v want %v", name, got, err, w)
 			}
 		case string:
@@ -880,11 +951,11 @@ func checkVerified(rt *rapid.T, ctx string, v *jwt.VerifiedJWT, typ *string, cla
 				fail("StringClaim(%q)=%q,%v want %q", name, got, err, w)
 			}
 		case []any:
-			if got, err := v.ArrayClaim(name); err != nil || !jsonEqual(any(got), any(w)) {
+			if got, err := v.ArrayClaim(name); err != nil || !(jsonEqual(any(got), any(w)) || (odd[name] && looseEqual(any(got), any(w)))) {
 				fail("ArrayClaim(%q)=%#v,%v want %#v", name, got, err, w)
 			}
 		case map[string]any:
-			if got, err := v.ObjectClaim(name); err != nil || !jsonEqual(any(got), any(w)) {
+			if got, err := v.ObjectClaim(name); err != nil || !(jsonEqual(any(got), any(w)) || (odd[name] && looseEqual(any(got), any(w)))) {
 				fail("ObjectClaim(%q)=%#v,%v want %#v", name, got, err, w)
 			}
 		}
@@ -942,8 +1013,18 @@ func checkVerified(rt *rapid.T, ctx string, v *jwt.VerifiedJWT, typ *string, cla
 	if err := json.Unmarshal(js, &back); err != nil {
 		fail("JSONPayload %q is not JSON: %v", js, err)
 	}
-	if !jsonEqual(back, any(claims)) {
+	bm, isObj := back.(map[string]any)
+	if !isObj || len(bm) != len(claims) {
 		fail("JSONPayload %s is not JSON-equal to the signed payload %s", js, jtext(claims))
+	}
+	for name, want := range claims {
+		got, has := bm[name]
+		if !has || !(jsonEqual(got, want) || (odd[name] && looseEqual(got, want))) {
+			fail("JSONPayload %s is not JSON-equal to the signed payload %s (claim %q)", js, jtext(claims), name)
+		}
+	}
+	if len(odd) > 0 {
+		evid.Add("accepted_with_odd_number_claims", 1)
 	}
 }
 
@@ -969,6 +1050,8 @@ func robust(rt *rapid.T, ctx, token string, refs []jwtref.Key, got *jwt.Verified
 	if derr != nil {
 		rt.Fatalf("%s\nACCEPTED a token whose payload part is not base64url: %v", ctx, derr)
 	}
+	// RFC 8259 section 8.1 lets a parser skip a byte order mark in front of the text; encoding/json does not
+	payload = bytes.TrimPrefix(payload, []byte("\xef\xbb\xbf"))
 	var signed, returned any
 	if uerr := json.Unmarshal(payload, &signed); uerr != nil {
 		rt.Fatalf("%s\nACCEPTED a token whose payload %q is not JSON for encoding/json: %v", ctx, payload, uerr)
@@ -1016,7 +1099,7 @@ func decide(rt *rapid.T, ctx string, p *party, token string, v jwtref.Validator,
 		return outcome{d, true}
 	}
 	evid.Add("decisions_accept", 1)
-	checkVerified(rt, full(), got, d.Typ, d.Claims)
+	checkVerifiedOdd(rt, full(), got, d.Typ, d.Claims, d.OddClaims)
 	return outcome{d, true}
 }
 
